@@ -776,12 +776,105 @@ func runC14(r *fw.Run) {
 		}
 		r.Note("timing: real sockets %s listen=%v %.1fs", cf.tr, cf.listen, time.Since(tB).Seconds())
 		for k := 0; k < r.Pick(1, 6); k++ {
+			r.Journal(0, map[string]interface{}{"what": "two service objects in one process", "address": cf.tr})
+			c14TwoServices(r, cf.tr)
+			r.Done(0)
 			r.Journal(0, map[string]interface{}{"what": "contexts of earlier periods end during a later period", "transport": cf.tr, "listen": cf.listen})
 			c14StaleContext(r, cf.tr, cf.listen, false)
 			c14StaleContext(r, cf.tr, cf.listen, true)
 			r.Done(0)
 		}
 	}
+}
+
+// c14TwoServices: two Service objects in one process, both given the address "tcp:127.0.0.1:0" (each gets a port of its own)
+// or unix paths of their own. B serves and is shut down; A serves; B is bound and served again while A keeps serving: what one
+// object does must not keep the other from being bound and served again, and each answers on its own endpoint.
+func c14TwoServices(r *fw.Run, addrKind string) {
+	cse := map[string]interface{}{"what": "two service objects in one process", "address": addrKind}
+	fail := func(class, format string, a ...interface{}) {
+		r.Violation("C14 "+class, fmt.Sprintf("two services (%s): ", addrKind)+fmt.Sprintf(format, a...), cse)
+	}
+	mk := func(name string) *varlink.Service {
+		s, _ := varlink.NewService("Verif", name, "1", "u")
+		return s
+	}
+	type run struct {
+		svc  *varlink.Service
+		done chan error
+		netw string
+		dial string
+	}
+	n := 0
+	start := func(svc *varlink.Service, product string) *run {
+		n++
+		addr := "tcp:127.0.0.1:0"
+		if addrKind == "unix" {
+			addr = "unix:" + filepath.Join(r.WorkDir, fmt.Sprintf("two%d-%d", r.Seq(), n))
+		}
+		if err := svc.Bind(context.Background(), addr); err != nil {
+			fail("cannot-bind-again", "%s: Bind(%q) returned %v", product, addr, err)
+			return nil
+		}
+		l, _ := svc.GetListener()
+		if l == nil {
+			fail("cannot-bind-again", "%s: no listener after Bind(%q)", product, addr)
+			return nil
+		}
+		x := &run{svc: svc, done: make(chan error, 1), netw: l.Addr().Network(), dial: l.Addr().String()}
+		go func() { x.done <- svc.DoListen(context.Background(), 0) }()
+		return x
+	}
+	call := func(x *run, product string) {
+		var last error
+		for try := 0; try < 400; try++ {
+			if ok, wrong := c20Probe(x.netw, x.dial, product, 2*time.Second); ok {
+				if wrong != "" {
+					fail("accepted-connection-not-served", "%s: its endpoint %s answers with %q", product, x.dial, clip(wrong, 120))
+				}
+				return
+			}
+			last = fmt.Errorf("no reply")
+			time.Sleep(500 * time.Microsecond)
+		}
+		fail("accepted-connection-not-served", "%s: no round trip on %s: %v", product, x.dial, last)
+	}
+	stop := func(x *run, product string) {
+		x.svc.Shutdown()
+		select {
+		case e := <-x.done:
+			if e != nil {
+				fail("shutdown-returned-error", "%s: serving call returned %v after Shutdown", product, e)
+			}
+		case <-time.After(20 * time.Second):
+			fail("serve-never-returns", "%s: serving call did not return within 20 s of Shutdown", product)
+		}
+	}
+	A, B := mk("TwoA"), mk("TwoB")
+	before := r.ViolationCount()
+	b1 := start(B, "TwoB")
+	if b1 == nil {
+		return
+	}
+	call(b1, "TwoB")
+	stop(b1, "TwoB")
+	a1 := start(A, "TwoA")
+	if a1 == nil {
+		return
+	}
+	call(a1, "TwoA")
+	b2 := start(B, "TwoB")
+	if b2 != nil {
+		call(b2, "TwoB")
+		call(a1, "TwoA")
+		stop(b2, "TwoB")
+		call(a1, "TwoA")
+	}
+	stop(a1, "TwoA")
+	if r.ViolationCount() == before {
+		r.Count("two_service_runs", 1)
+	}
+	r.Case(fw.Hash("two-services", addrKind), true)
 }
 
 // c14StaleContext: every serve period gets a context of its own; the contexts of periods that are over are ended
@@ -1191,7 +1284,7 @@ func replayC14(r *fw.Run, raw json.RawMessage) {
 func init() {
 	fw.Register(&fw.Engine{
 		ID: "C14", Level: "exploration",
-		Rule: "(A) histories on a controlled net.Listener installed through the white-box accessor, DoListen running on it: every valid prefix over {connect, call, call followed in the same segment by the start of a frame that is never completed, close, abort mid-frame, handler fails, cancel serving context, second Bind, second Listen} up to length 4 (quick) / 7 (thorough), each ended by Shutdown at each of 4 placements - while Accept is parked, inside SetDeadline (before accept), inside Accept just before it returns a connection (between accept and handler start), from another goroutine racing a new connection - plus seeded random histories of length 4..10; connections are in-memory pipes or unix socketpairs. Oracle on event order only: every accepted connection is closed by the service exactly when its end is reached (client close, abort, handler error, context cancel) and counted out (active count 0 at the end); Close was called on the installed listener by the time Shutdown returned; a connection offered after Shutdown returned is never served; the serving call does not return while accepted connections are open, returns nil once they have ended (refuted logically when the loop is parked in Accept on a listener nobody closed), and the same object then binds, serves a call and shuts down again; second Bind/Listen during serving return an error and the first serving call still answers. (B) real unix/TCP sockets, Listen and Bind+DoListen: clients loop dial+GetInfo while a controller cycles serve -> Shutdown (with idle, mid-frame and used connections held across it) -> wait -> serve again on the same address; successful calls, binds and shutdowns are recorded with call/return stamps from one logical clock and checked with porcupine against the model 'ok only while bound'. non-trivial = history with >= 1 step before the shutdown; distinct by hash of the history. Further placements: Shutdown called by a handler while it answers a call; Shutdown before, and racing with, the start of the serving call (60 / 600 runs); every third history re-serves the object a third time through Listen. Three consecutive periods of one object, each with a context of its own; the context of the previous period is cancelled (or its deadline passes) while the next period serves: that period keeps answering until its own Shutdown.",
+		Rule: "(A) histories on a controlled net.Listener installed through the white-box accessor, DoListen running on it: every valid prefix over {connect, call, call followed in the same segment by the start of a frame that is never completed, close, abort mid-frame, handler fails, cancel serving context, second Bind, second Listen} up to length 4 (quick) / 7 (thorough), each ended by Shutdown at each of 4 placements - while Accept is parked, inside SetDeadline (before accept), inside Accept just before it returns a connection (between accept and handler start), from another goroutine racing a new connection - plus seeded random histories of length 4..10; connections are in-memory pipes or unix socketpairs. Oracle on event order only: every accepted connection is closed by the service exactly when its end is reached (client close, abort, handler error, context cancel) and counted out (active count 0 at the end); Close was called on the installed listener by the time Shutdown returned; a connection offered after Shutdown returned is never served; the serving call does not return while accepted connections are open, returns nil once they have ended (refuted logically when the loop is parked in Accept on a listener nobody closed), and the same object then binds, serves a call and shuts down again; second Bind/Listen during serving return an error and the first serving call still answers. (B) real unix/TCP sockets, Listen and Bind+DoListen: clients loop dial+GetInfo while a controller cycles serve -> Shutdown (with idle, mid-frame and used connections held across it) -> wait -> serve again on the same address; successful calls, binds and shutdowns are recorded with call/return stamps from one logical clock and checked with porcupine against the model 'ok only while bound'. non-trivial = history with >= 1 step before the shutdown; distinct by hash of the history. Further placements: Shutdown called by a handler while it answers a call; Shutdown before, and racing with, the start of the serving call (60 / 600 runs); every third history re-serves the object a third time through Listen. Three consecutive periods of one object, each with a context of its own; the context of the previous period is cancelled (or its deadline passes) while the next period serves: that period keeps answering until its own Shutdown. Two Service objects in one process given the same address string tcp:127.0.0.1:0 (or unix paths of their own): one is served, shut down and served again while the other keeps serving; each answers on its own endpoint.",
 		Assumptions: []string{"bounded progress: 10 s for a single step of the accept loop or the release of a connection, 20 s for the serving call to return", "the 8 ms drain grace and the 3 ms late-connection window are one-sided (a violation observed inside them is real; none observed proves nothing beyond them)"},
 		Run:         runC14, Replay: replayC14, CrashIsViolation: true, MinEvals: 100,
 		QuickTimeout: 15 * time.Minute, ThoroughTimeout: 60 * time.Minute,
